@@ -24,6 +24,11 @@ type verifC10Env struct {
 	actions int
 	point   string // label of the current scheduling point
 	acted   string // where and what the environment did
+
+	// window: the snapshot/export has released its temporary WRITE lock (it has sampled position and
+	// frame offsets) and does not hold READ0 yet, so nothing stops a checkpointer
+	window       bool
+	ckptInWindow bool
 }
 
 func (e *verifC10Env) image() [][]byte {
@@ -91,6 +96,9 @@ func (e *verifC10Env) step() {
 	}
 	act := rt.Choose("env.action", 3)
 	e.acted += " [" + []string{"wal-write", "checkpoint(+restart)", "checkpoint+restart+write"}[act] + " at " + at + "]"
+	if act != 0 && e.window {
+		e.ckptInWindow = true
+	}
 	switch act {
 	case 0: // WAL writer
 		if ok, _ := db.TryLocks(ctx, 1, []LockType{LockTypeWrite}); ok {
@@ -161,6 +169,12 @@ func verifC10Setup(wal bool) *verifC10Env {
 		verifMutex(e.w.db, t).OnLockStateChange = func(prev, next RWMutexState) {
 			if !e.busy {
 				e.point = t.String() + ":" + prev.String() + "->" + next.String()
+				if t == LockTypeWrite && prev == RWMutexStateExclusive && next == RWMutexStateUnlocked {
+					e.window = true
+				}
+				if t == LockTypeRead0 && next == RWMutexStateShared {
+					e.window = false
+				}
 			}
 			e.step()
 		}
@@ -232,7 +246,11 @@ func VerifC10Export() {
 	rt.Reach("c10.export.completed")
 	img, ok := e.history[pos.TXID]
 	rt.Check(ok, "a completed export reports a committed position")
-	rt.Check(bytes.Equal(buf.Bytes(), verifJoin(img)), "export is exactly the image of the position it reports (no mixture, no uncommitted page); environment:"+e.acted)
+	class := ""
+	if e.ckptInWindow {
+		class = " {a checkpoint ran after Export released its temporary WRITE lock and before it held READ0}"
+	}
+	rt.Check(bytes.Equal(buf.Bytes(), verifJoin(img)), "export is exactly the image of the position it reports (no mixture, no uncommitted page); environment:"+e.acted+class)
 	if e.actions > 0 {
 		rt.Reach("c10.export.with.env")
 	}
